@@ -13,6 +13,8 @@ Tie:
       stDAG.get_width call - made with ignored + synthetic edges; log term over non-ignored values, max, range end
       computed by Lean) + the antichain the code
       itself extracts certifies the captured width (|A| = width, pairwise on no common path);
+  K1.greedy  the kFlowDecomp constructor's greedy shortcut (fired or not, stored paths and weights, solved flag), built
+      directly for a k around the number of greedy paths and inside MinFlowDecomp.solve(), vs the Lean op `greedy.shortcut`;
   K2  the LP of every kFlowDecomp model built inside MinFlowDecomp.solve equals Lean's kfdLP(inp.withK k);
   K3  search traces of MinFlowDecomp under injected solver statuses (machinery of props/c13.py);
   K5  brute-force minimum flow decomposition (independent oracle, exact arithmetic) vs solve()/get_solution()
@@ -35,21 +37,33 @@ THEOREMS = ["FP.Props.C03.kfd_complete", "FP.Props.C03.kfd_sound", "FP.Props.C03
             "FP.Props.C03.lb_constraints_valid", "FP.Props.C03.search_range_too_small_witness",
             "FP.Props.C03.search_range_regression", "FP.Props.C03.ignored_values_witness",
             "FP.Props.C03.mingenset_exit_witness",
+            "FP.Props.C03.greedy_shortcut_sound", "FP.Props.C03.greedy_shortcut_minimal",
+            "FP.Props.C03.shortcut_agrees_with_search", "FP.Props.C03.greedy_shortcut_constraints", "FP.Props.C17.greedy_exact",
             "FP.Props.C02.kfd_exact", "FP.Props.C13.search_sound", "FP.Props.C13.search_complete"]
-IMPORTS = ["FP.Props.C03", "FP.Props.C02", "FP.Props.C13"]
+IMPORTS = ["FP.Props.C03", "FP.Props.C02", "FP.Props.C13", "FP.Props.C17", "FP.Model.GreedyShortcut", "FP.Proofs.GreedyShortcut"]
 RULE = ("K5: random DAGs with 2-6 nodes and <= 7 edges (plus single edges, stars, several sources/sinks, occasionally "
         "isolated nodes, graphs whose optimum is |E|), flows = superpositions of weighted source-to-sink paths (weights from "
         "{1,2,3,5,8} or dyadic floats), optionally subpath constraints (coverage 1), ignored edges with arbitrary flow, node "
         "weights with missing attributes / ignored nodes; every instance is solved under several option combinations; a case "
         "= (instance, options); non-trivial iff the brute-force minimum is >= 2. K1: same generators up to 8 nodes; "
-        "non-trivial iff the bound exceeds 1 or a non-default option is active. K3: a case = (instance, fault plan).")
+        "non-trivial iff the bound exceeds 1 or a non-default option is active. K1.greedy: the edge-weighted generators "
+        "(constraints, coverage 1 / 0.75 / 0.5 / 0.25, ignored edges, optimize_with_greedy off in 15%), a case = (instance, k) "
+        "with k = #greedy paths + {-1,0,1,2} or a whole MinFlowDecomp.solve(); non-trivial iff the shortcut fired or a feature is "
+        "present. K3: a case = (instance, fault plan).")
 MODEL_SCOPE = ("modelled and proven: the plain route of MinFlowDecomp.solve (lower bound as a function of its ingredients, "
                "range(lb, |E|+1), stop-search over kFlowDecomp MILPs, k-model feasibility <-> existence of a k-path "
                "decomposition); modelled as opaque inputs: stDAG.get_width (certified per run by the code's own antichain), "
-               "MinGenSet, subgraph scanning; not modelled: greedy shortcut and given-weights shortcut (covered by the "
-               "end-to-end oracle only), node expansion (C11), relaxed coverage")
+               "MinGenSet, subgraph scanning; the greedy shortcut of the kFlowDecomp constructor (guard: optimize_with_greedy, "
+               "no ignored edges, conservation; greedy peeling of C17; empty result; subpath-constraint coverage test; "
+               "len(paths) <= k, padding with paths[0] / weight 0) is modelled on edge-weighted input (greedyShortcut) and "
+               "proven to return a k-path decomposition that is minimum when k is a valid lower bound; not modelled: "
+               "given-weights shortcut (covered by the end-to-end oracle only), the shortcut on node-weighted input "
+               "(condensation of the internal paths), node expansion (C11), relaxed coverage in the MILP")
 TRUSTED = ["HiGHS reports kOptimal/kInfeasible truthfully on these small MILPs (the end-to-end oracle re-checks every answer "
-           "against an exact brute-force minimum)"]
+           "against an exact brute-force minimum)",
+           "greedy_shortcut_minimal takes the validity of the lower bound k (width) as a hypothesis: discharged by lb_antichain_valid "
+           "+ the per-run antichain certificate of K1; the topological order max_bottleneck_path iterates in is captured "
+           "from the real call and checked against the IsTopo contract by the driver"]
 ASSUMPTIONS = ["float weights: dyadic flow values, so the exact-arithmetic oracle and the floating-point model see the same instance",
                "lowerbound_k, when passed by the caller, is a valid lower bound (the harness passes values <= the true minimum)"]
 
@@ -787,8 +801,178 @@ def run_k5(ctx):
             ctx.rep.sample({"suite": "K5.minimum", "instance": strip(inst), "brute_force": best})
 
 
+# =====================================================================================================
+#  K1.greedy: the greedy shortcut of kFlowDecomp (constructor) vs the Lean op `greedy.shortcut`
+# =====================================================================================================
+
+class GreedyCapture:
+    """records every call of kFlowDecomp._get_solution_with_greedy (k, returned bool, solution stored, solved flag) and the
+    graph / topological order / flow values stDAG.decompose_using_max_bottleneck hands to max_bottleneck_path first"""
+
+    def __init__(self, fp):
+        self.fp = fp; self.calls = []; self.first = None; self.ctors = 0
+
+    def __enter__(self):
+        K, gu = self.fp.kFlowDecomp, self.fp.utils.graphutils
+        self._g, self._mb, self._init = K._get_solution_with_greedy, gu.max_bottleneck_path, K.__init__
+        me = self
+
+        def greedy(m):
+            me.first = None
+            r = me._g(m)
+            sol = m._solution
+            me.calls.append({"k": m.k, "fired": bool(r), "first": me.first, "solved": bool(m.is_solved()) if r else None,
+                             "paths": [list(p) for p in (sol.get("_paths_internal", sol["paths"]) if r else [])],
+                             "weights": [qstr(w) for w in (sol["weights"] if r else [])]})
+            return r
+
+        def mb(TG, attr):
+            if me.first is None:
+                me.first = {"nodes": list(TG.nodes()), "edges": list(TG.edges()), "topo": list(nx.topological_sort(TG)),
+                            "flow": [[u, v, qstr(d[attr])] for u, v, d in TG.edges(data=True)]}
+            return me._mb(TG, attr)
+        K._get_solution_with_greedy, gu.max_bottleneck_path = greedy, mb
+        return self
+
+    def __exit__(self, *a):
+        self.fp.kFlowDecomp._get_solution_with_greedy = self._g
+        self.fp.utils.graphutils.max_bottleneck_path = self._mb
+        return False
+
+
+def conserving_edges(inst):
+    tin, tout = {}, {}
+    for u, v, q in inst["flow"]:
+        tout[u] = tout.get(u, 0) + frac(q); tin[v] = tin.get(v, 0) + frac(q)
+    return all(tin[v] == tout[v] for v in tin if v in tout)
+
+
+def greedy_model(ctx, inst, k, opt_greedy, first):
+    """the Lean model's answer for one constructor call"""
+    if first is None:
+        G = nx.DiGraph(); G.add_nodes_from(inst["nodes"]); G.add_edges_from(tuple(e) for e in inst["edges"])
+        first = {"nodes": list(G.nodes()), "edges": list(G.edges()), "topo": list(nx.topological_sort(G)),
+                 "flow": [list(x) for x in inst["flow"]]}
+    ans = ctx.driver.call({"op": "greedy.shortcut", "nodes": first["nodes"], "edges": [list(e) for e in first["edges"]],
+                           "topo": first["topo"], "flow": first["flow"], "k": k, "opt_greedy": opt_greedy,
+                           "ignore_empty": len(inst["ignore"]) == 0, "conserving": conserving_edges(inst),
+                           "constraints": [[[e[0], e[1], "1"] for e in c] for c in inst["constraints"]],
+                           "coverage": qstr(frac(inst.get("coverage", "1")))})
+    if "stuck" in ans:
+        return {"stuck": True}
+    if not ans["fired"]:
+        return {"fired": False}
+    return {"fired": True, "paths": ans["paths"], "weights": [qstr(Fraction(w)) for w in ans["weights"]]}
+
+
+def greedy_instance(rng):
+    r = rng.random()
+    if r < 0.15:
+        inst = detour_instance(rng)
+    elif r < 0.3:
+        inst = big_edge_instance(rng)
+    else:
+        inst = edge_instance(rng, features=rng.random() < 0.6)
+    inst = dict(inst); inst.pop("stale_file_attrs", None)
+    if inst["constraints"] and rng.random() < 0.3:
+        inst["coverage"] = rng.choice(["0.5", "0.75", "0.25"])
+    return inst
+
+
+def greedy_case(ctx, inst, k, opts, via, suite="K1.greedy"):
+    """via = 'k': construct kFlowDecomp(k) directly; via = 'min': MinFlowDecomp.solve() and every k-model it builds"""
+    desc = dict(strip(inst), k=k, options=opts, via=via)
+    opt_greedy = opts.get("optimize_with_greedy", True)
+    with GreedyCapture(ctx.fp) as cap:
+        try:
+            if via == "k":
+                m = models.build(ctx.fp, dict(inst, cls="kFlowDecomp", k=k), extra_opts=opts)
+                ks = [k]
+            else:
+                m = models.build(ctx.fp, dict(inst, cls="MinFlowDecomp"), extra_opts=opts)
+                seen = []
+                K = ctx.fp.kFlowDecomp; init = K.__init__
+
+                def rec(self_, *a, **kw):
+                    seen.append(kw.get("k")); return init(self_, *a, **kw)
+                K.__init__ = rec
+                try:
+                    m.solve()
+                finally:
+                    K.__init__ = init
+                ks = seen
+        except ValueError as e:
+            ctx.rep.count(suite, desc, nontrivial=False, hist=["ctor ValueError"]); return None
+    if any(kk is None for kk in ks):
+        ctx.disagree(suite, desc, "kFlowDecomp constructed without keyword k", None); return None
+    calls = list(cap.calls)
+    fired_any = False
+    rows = []
+    for kk in ks:
+        guard = opt_greedy and len(inst["ignore"]) == 0 and conserving_edges(inst)
+        if guard:
+            if not calls or calls[0]["k"] != kk:
+                ctx.disagree(suite, desc, f"_get_solution_with_greedy not called for k={kk}", {"guard": True}); return None
+            c = calls.pop(0)
+            impl = {"fired": c["fired"]}
+            if c["fired"]:
+                impl.update(paths=c["paths"], weights=c["weights"])
+                if not c["solved"]:
+                    ctx.disagree(suite, desc, "shortcut fired but is_solved() is False", None)
+            first = c["first"]
+        else:
+            impl, first = {"fired": False}, None
+        model = greedy_model(ctx, inst, kk, opt_greedy, first)
+        ctx.rep.cov["traces_validated_against_impl"] += 1
+        fired_any = fired_any or impl["fired"]
+        rows.append((kk, impl["fired"]))
+        if impl != model:
+            ctx.disagree(suite, dict(desc, k=kk), impl, model)
+    if calls:
+        ctx.disagree(suite, desc, f"{len(calls)} unexpected call(s) of _get_solution_with_greedy", None)
+    if via == "min" and m.is_solved() and fired_any:
+        # end to end: the answer of solve() is the shortcut's solution of the last k-model
+        sol = m.get_solution()
+        last = [c for c in cap.calls if c["fired"]][-1]
+        if [list(p) for p in sol["paths"]] != last["paths"] or [qstr(w) for w in sol["weights"]] != last["weights"]:
+            ctx.disagree(suite, desc, {"get_solution": [sol["paths"], [qstr(w) for w in sol["weights"]]]},
+                         {"shortcut": [last["paths"], last["weights"]]})
+    ctx.rep.count(suite, desc, nontrivial=fired_any or bool(opts) or bool(inst["constraints"]) or bool(inst["ignore"]),
+                  hist=["fired" if fired_any else "not fired", via,
+                        "constraints" if inst["constraints"] else ("ignored" if inst["ignore"] else "plain"),
+                        "greedy off" if not opt_greedy else "greedy on"])
+    return rows
+
+
+def run_k1_greedy(ctx):
+    rng = ctx.rng
+    shown = 0
+    for it in range(ctx.n(500, 6000)):
+        inst = greedy_instance(rng)
+        opts = {}
+        if rng.random() < 0.15:
+            opts["optimize_with_greedy"] = False
+        # number of greedy paths (only used to choose k around the boundary)
+        try:
+            G = nx.DiGraph(); G.add_nodes_from(inst["nodes"])
+            for u, v, q in inst["flow"]:
+                G.add_edge(u, v, flow=float(frac(q)))
+            n = len(ctx.fp.stDAG(G).decompose_using_max_bottleneck("flow")[0])
+        except Exception:
+            n = inst.get("planted", 2)
+        if rng.random() < 0.25:
+            rows = greedy_case(ctx, inst, None, opts, "min")
+        else:
+            k = max(1, n + rng.choice([-1, 0, 0, 0, 1, 2]))
+            rows = greedy_case(ctx, inst, k, opts, "k")
+        if rows and shown < 2 and any(f for _, f in rows):
+            shown += 1
+            ctx.rep.sample({"suite": "K1.greedy", "instance": strip(inst), "options": opts, "k_fired": rows})
+
+
 def run(ctx):
     run_k1(ctx)
+    run_k1_greedy(ctx)
     run_k2(ctx)
     run_k3(ctx)
     run_k5(ctx)
